@@ -123,4 +123,115 @@ example : ∃ sf, C10.run C10.cfg0 C10.s0
     ∧ view sf.mem = ⟨[1], 1, 3, [], true⟩ ∧ view sf.disk = view sf.mem := by
   refine ⟨_, rfl, ?_, ?_⟩ <;> decide
 
+
+/-! ### Tie to the source: every mutation is followed by its persist call (translate/x_reqshape.py)
+
+For every state-changing function of channel.rs and node.rs `Gen/ReqShape.lean` lists mutations and
+persister calls in program order.  `C11_shape_durable` is the general statement: running an accepted
+request of a given shape from a state whose store agrees with memory on the clean components ends in a
+state whose store agrees with memory on every component the shape does not leave dirty.
+`C11_gen_shape_persist` states which functions of the current sources leave a component dirty: only the
+three helpers whose callers persist (checked by `C11_gen_shape_callers`).  Components without a persist
+call of their own (issued invoices, fee velocity, the payments ledger) are outside the property's list of
+durable fields (see the header of this file and DESIGN.md C11) and are exempt. -/
+
+namespace Shape
+open VlsModel.ReqShape
+
+/-- memory and store, per component -/
+structure DState (α : Type) where
+  mem : Comp → α
+  disk : Comp → α
+
+/-- an accepted request of the given shape: every check passes, the i-th mutation applies an
+    arbitrary function to its component, a persist call copies the components it covers to the store -/
+def run {α : Type} (f : Nat → α → α) : Nat → List Ev → DState α → DState α
+  | _, [], s => s
+  | i, .check :: r, s => run f (i + 1) r s
+  | i, .mutate c _ :: r, s => run f (i + 1) r { s with mem := fun x => if x = c then f i (s.mem c) else s.mem x }
+  | i, .persist c :: r, s =>
+    run f (i + 1) r { s with disk := fun x => if persistedBy x = some c then s.mem x else s.disk x }
+
+end Shape
+
+open VlsModel.ReqShape Shape in
+theorem shape_run_durable {α : Type} (f : Nat → α → α) (evs : List Ev) :
+    ∀ (i : Nat) (s : DState α) (d : Comp → Bool), (∀ x, d x = false → s.disk x = s.mem x) →
+      ∀ x, dirtyAux d evs x = false → (run f i evs s).disk x = (run f i evs s).mem x := by
+  induction evs with
+  | nil => intro i s d h x hx; exact h x hx
+  | cons e r ih =>
+    intro i s d h x hx
+    cases e with
+    | check => exact ih (i + 1) s d h x hx
+    | mutate c fl =>
+      simp only [dirtyAux] at hx
+      simp only [run]
+      refine ih (i + 1) _ _ ?_ x hx
+      intro y hy
+      simp only [Bool.or_eq_false_iff, beq_eq_false_iff_ne, ne_eq] at hy
+      simp only [hy.1, if_false]
+      exact h y hy.2
+    | persist c =>
+      simp only [dirtyAux] at hx
+      simp only [run]
+      refine ih (i + 1) _ _ ?_ x hx
+      intro y hy
+      by_cases hp : persistedBy y = some c
+      · simp [hp]
+      · have hp' : (persistedBy y == some c) = false := by simpa using hp
+        simp only [hp', Bool.false_eq_true, if_false] at hy
+        simp only [hp, if_false]
+        exact h y hy
+
+/-- **C11 for every function of an extracted shape**: an accepted request that starts from a store
+    equal to memory ends with the store equal to memory on every component its shape does not leave
+    dirty — whatever its mutations do. -/
+theorem C11_shape_durable {α : Type} (evs : List ReqShape.Ev) (f : Nat → α → α) (s : Shape.DState α)
+    (h : ∀ x, s.disk x = s.mem x) (x : ReqShape.Comp) (hx : ReqShape.dirty evs x = false) :
+    (Shape.run f 0 evs s).disk x = (Shape.run f 0 evs s).mem x :=
+  shape_run_durable f evs 0 s (fun _ => false) (fun y _ => h y) x hx
+
+/-- functions that leave a persisted component dirty: three helpers, whose callers persist -/
+def expectedDirty : List (Gen.ReqShape.Fn × List ReqShape.Comp) :=
+  [(.advance_holder_commitment_state, [.chan]),   -- called by revoke_previous_holder_commitment (persist .chan)
+   (.funding_signed, [.monitor]),                  -- called by unchecked_sign_onchain_tx (persist .tracker)
+   (.forget, [.monitor])]                          -- called by forget_channel (persist .tracker; fix 2cdac39)
+
+/-- **C11_gen_shape_persist** (generated obligation): in the current sources every mutation of a
+    component with a persist call of its own is followed by that call, in every state-changing function
+    of channel.rs and node.rs except the listed helpers. -/
+theorem C11_gen_shape_persist :
+    (Gen.ReqShape.Fn.all.filterMap (fun f =>
+      if ReqShape.leftDirty (Gen.ReqShape.evs f) = [] then none
+      else some (f, ReqShape.leftDirty (Gen.ReqShape.evs f)))) = expectedDirty := by
+  decide +kernel
+
+/-- the callers of the three helpers write the component the helper leaves dirty, after calling it -/
+theorem C11_gen_shape_callers :
+    ReqShape.leftDirty (Gen.ReqShape.evs .revoke_previous_holder_commitment) = [] ∧
+    ReqShape.Ev.mutate .chan true ∈ Gen.ReqShape.evs .revoke_previous_holder_commitment ∧
+    ReqShape.leftDirty (Gen.ReqShape.evs .unchecked_sign_onchain_tx) = [] ∧
+    ReqShape.Ev.mutate .monitor false ∈ Gen.ReqShape.evs .unchecked_sign_onchain_tx ∧
+    ReqShape.leftDirty (Gen.ReqShape.evs .forget_channel) = [] ∧
+    ReqShape.Ev.mutate .monitor true ∈ Gen.ReqShape.evs .forget_channel := by
+  decide +kernel
+
+/-- hence: for every other function, an accepted run leaves store = memory on chan, node, tracker, map
+    and monitor -/
+theorem C11_gen_shape_durable {α : Type} (fn : Gen.ReqShape.Fn) (hf : fn ∉ expectedDirty.map (·.1))
+    (f : Nat → α → α) (s : Shape.DState α) (h : ∀ x, s.disk x = s.mem x)
+    (x : ReqShape.Comp) (hx : (ReqShape.persistedBy x).isSome = true) :
+    (Shape.run f 0 (Gen.ReqShape.evs fn) s).disk x = (Shape.run f 0 (Gen.ReqShape.evs fn) s).mem x := by
+  apply C11_shape_durable _ _ _ h
+  revert hf hx
+  cases fn <;> cases x <;> decide +kernel
+
+/-- non-vacuity: the F12 shape (`forget_channel` without the tracker write) leaves the monitor dirty;
+    with the write nothing is left dirty -/
+example :
+    ReqShape.leftDirty [.mutate .monitor true, .mutate .node false, .persist .node, .persist .chan] = [.monitor] ∧
+    ReqShape.leftDirty [.mutate .monitor true, .mutate .node false, .persist .node, .persist .chan, .persist .tracker] = [] := by
+  decide
+
 end VlsModel.Props.C11
